@@ -144,7 +144,7 @@ def run_shard(spec, emit):
     capture.install()
     n_ops = 10 if tier == "quick" else 90
     n_draws = 15 if tier == "quick" else 40
-    deadline = time.monotonic() + (85 if tier == "quick" else 2400)
+    deadline = time.monotonic() + (85 if tier == "quick" else 300)
     samples = 0
     jobs = [("special", k) for k in SPECIALS if rng.random() < (0.5 if tier == "quick" else 1.0)] + [("random", None)] * n_ops
     for op_idx, (jkind, special) in enumerate(jobs):
